@@ -6,6 +6,7 @@ at root + {(0,0),(4,8),(8,4)} + 12*Z^2."""
 from ..core import check, Rejected
 
 ID = "C19"
+IMPORTS = ['rig.geometry']
 LEVEL = "exploration"
 TECHNIQUE = ("runtime post-condition monitor on return values vs independent "
              "tile model, exhaustive enumeration of sizes/roots/chips/links")
